@@ -382,6 +382,10 @@ def run(tier):
     import x24_params
     if x24_params.enabled():
         x24_params.run_part(ck, tier)
+    # extension X26: how inputs come into existence and are exchanged (checks/x26_iosetup.py, docs/X26_iosetup.md)
+    import x26_iosetup
+    if x26_iosetup.enabled():
+        x26_iosetup.run_part(ck, tier)
     return ck.finish()
 
 
@@ -394,6 +398,9 @@ def replay(path):
     if det.get("part") == "x24_params":
         import x24_params
         return x24_params.replay(det, path)
+    if det.get("part") == "x26_iosetup":
+        import x26_iosetup
+        return x26_iosetup.replay(det, path)
     beh = det.get("behaviour")
     if not beh:
         print(json.dumps(det, indent=1)[:4000])
